@@ -11,7 +11,9 @@ Record dround := mkDRound { d_cache : dcache; d_events : list ev; d_result : syn
                             d_queue : list (string * string * Z);   (* op, key, delay in ms *)
                             d_mutated : string }.   (* cache-fingerprint oracle: "" or which cached object the sync changed *)
 Record dcase := mkDCase { d_cfg : dcfg; d_rounds : list dround;
-                          d_flags : list string }.    (* scenario features *)
+                          d_flags : list string;      (* scenario features *)
+                          d_initial : list json;      (* converge scenarios: the store before the first sync *)
+                          d_final : list json }.      (* and after the last *)
 
 (* ---------- the modelled domain ---------- *)
 (* annotations of a target are plain strings (an embedded JSON text, as the
@@ -124,6 +126,21 @@ Definition leg_check (f : dcfg -> dround -> option string) (c : dcase) : verdict
 Definition C03d_check := leg_check (fun c r => C03d_round c (d_cache r) (d_events r)).
 Definition C12d_check := leg_check (fun c r => C12d_round (dk_key (d_cache r)) (d_events r) (d_result r) (d_queue r)).
 Definition C13d_check := leg_check (fun c r => C13d_round (d_events r) (d_result r)).
+
+(* ---------- C01, decorator leg: convergence and no hot loop ---------- *)
+(* fault-free syncs with fresh caches until one sends no write, then one more (the harness stops there) *)
+Definition C01d_check (c : dcase) : verdict :=
+  if negb (forallb round_in_domain (d_rounds c)) then SKIP "target-annotation-holds-embedded-json" else
+  if negb (mem_str "converge" (d_flags c)) then SKIP "not-a-convergence-scenario" else
+  match C01d_case (d_cfg c) (map (fun r => (d_cache r, d_events r, d_result r)) (d_rounds c)) (d_initial c) (d_final c) with
+  | Some w => PROPFAIL w
+  | None =>
+      if negb (denv_sane c) then DIVERGE "environment-assumption-sane" else
+      match first_ddivergence (d_cfg c) (d_rounds c) 0 with
+      | Some w => DIVERGE w
+      | None => OK
+      end
+  end.
 
 (* ---------- debugging aids (not used by the verdict) ---------- *)
 Definition model_calls (c : dcfg) (r : dround) : list string * sync_result :=
